@@ -24,7 +24,8 @@ use crate::{
     GDResult,
 };
 
-use bzip2_rs::decoder::Decoder;
+use bzip2_rs::DecoderReader;
+use std::io::Read;
 
 use crate::buffer::Utf8Decoder;
 use crate::protocols::valve::Packet;
@@ -64,8 +65,9 @@ impl SplitPacket {
                     true => 1248,
                 };
 
+                // The decompressed size and the CRC32 are only in the first packet of a compressed response
                 let is_compressed = ((id >> 31) & 1u32) == 1u32;
-                let decompressed = match is_compressed {
+                let decompressed = match is_compressed && number == 0 {
                     false => None,
                     true => Some((buffer.read()?, buffer.read()?)),
                 };
@@ -87,17 +89,18 @@ impl SplitPacket {
 
     fn get_payload(&self) -> GDResult<Vec<u8>> {
         if let Some(decompressed) = self.decompressed {
-            let mut decoder = Decoder::new();
-            decoder
-                .write(&self.payload)
-                .map_err(|e| Decompress.context(e))?;
-
             let decompressed_size = decompressed.0 as usize;
+            // The server declares the size, don't trust it with an arbitrarily large allocation
+            if decompressed_size > MAX_DECOMPRESSED_SIZE {
+                return Err(Decompress.context(format!(
+                    "Declared decompressed size {decompressed_size} is larger than {MAX_DECOMPRESSED_SIZE}"
+                )));
+            }
 
-            let mut decompressed_payload = vec![0; decompressed_size];
-
-            decoder
-                .read(&mut decompressed_payload)
+            let mut decompressed_payload = Vec::with_capacity(decompressed_size);
+            DecoderReader::new(self.payload.as_slice())
+                .take(decompressed_size as u64 + 1)
+                .read_to_end(&mut decompressed_payload)
                 .map_err(|e| Decompress.context(e))?;
 
             if decompressed_payload.len() != decompressed_size
@@ -116,6 +119,9 @@ impl SplitPacket {
         }
     }
 }
+
+/// Upper bound for the decompressed size a server can declare.
+const MAX_DECOMPRESSED_SIZE: usize = 8 * 1024 * 1024;
 
 pub(crate) struct ValveProtocol {
     socket: UdpSocket,
